@@ -33,6 +33,7 @@ import (
 	"strconv"
 	"strings"
 	"sync"
+	"sync/atomic"
 	"testing"
 	"time"
 
@@ -208,6 +209,7 @@ type vpC21Answer struct {
 	status   int
 	location string
 	close    bool
+	dropOnce bool // the first arrival of this request is read and the connection closed without an answer (a retryable fault)
 }
 
 type vpC21Net struct {
@@ -303,6 +305,12 @@ func (n *vpC21Net) serve(raw *vpC21Conn, addr string, connID int) {
 		n.mu.Lock()
 		n.recs = append(n.recs, rec)
 		ans, ok := n.answers[rec.id]
+		if ok && ans.dropOnce {
+			ans.dropOnce = false
+			n.answers[rec.id] = ans
+			n.mu.Unlock()
+			return
+		}
 		n.mu.Unlock()
 		if !ok {
 			ans = vpC21Answer{status: 200}
@@ -378,6 +386,7 @@ type vpC21Op struct {
 	method string
 	hops   []vpC21Hop
 	close  bool
+	flip   bool // Client / HostClient, Do / DoTimeout / DoDeadline: the first attempt is dropped by the peer and the retry callback changes the request's scheme before the next attempt
 	resend bool // Do / DoTimeout / DoDeadline on Client or HostClient: the request that was just sent is duplicated with Request.CopyTo and the copy is sent as well (retry / mirroring)
 }
 
@@ -458,6 +467,9 @@ func vpC21GenCase(t *rapid.T) *vpC21Case {
 		o.close = rapid.IntRange(0, 4).Draw(t, "opclose") == 0
 		if o.api <= 2 && c.kind != 2 {
 			o.resend = rapid.IntRange(0, 3).Draw(t, "resend") == 0
+			if !o.resend {
+				o.flip = rapid.IntRange(0, 4).Draw(t, "flip") == 0
+			}
 		}
 		c.ops = append(c.ops, o)
 	}
@@ -478,6 +490,9 @@ func (c *vpC21Case) String() string {
 		if o.resend {
 			sb.WriteString(" +copy-resent")
 		}
+		if o.flip {
+			sb.WriteString(" +scheme-changed-before-retry")
+		}
 		for _, h := range o.hops {
 			fmt.Fprintf(&sb, " ->%d(f%d)%s://%s%s", h.status, h.form, h.target.scheme, h.target.host, h.target.port)
 		}
@@ -494,6 +509,7 @@ type vpC21Stats struct {
 	reused              int
 	clientErrs          int
 	resent              int
+	flips               int
 }
 
 type vpC21Doer interface {
@@ -515,12 +531,23 @@ func vpC21Exec(c *vpC21Case) (string, vpC21Stats) {
 	var cl *Client
 	var hcs []*HostClient
 	var lb *LBClient
+	// retry callback of the "flip" operations: while flipTo is set, a failed attempt is retried with the request's
+	// scheme changed (an application-level fallback); otherwise it behaves like the default (idempotent methods only)
+	var flipTo atomic.Value
+	flipTo.Store("")
+	retryCB := func(req *Request, attempts int, err error) (bool, bool) {
+		if sch, _ := flipTo.Load().(string); sch != "" {
+			req.URI().SetScheme(sch)
+			return false, true
+		}
+		return false, req.Header.IsGet() || req.Header.IsHead() || req.Header.IsPut()
+	}
 	switch c.kind {
 	case 0:
-		cl = &Client{Dial: nw.dial, TLSConfig: clientTLS, ReadTimeout: 30 * time.Second, WriteTimeout: wt, MaxIdleConnDuration: time.Second}
+		cl = &Client{Dial: nw.dial, TLSConfig: clientTLS, ReadTimeout: 30 * time.Second, WriteTimeout: wt, MaxIdleConnDuration: time.Second, RetryIfErr: retryCB}
 		defer cl.CloseIdleConnections()
 	case 1:
-		hc := &HostClient{Addr: c.hcTarget.host + c.hcTarget.port, IsTLS: c.hcTarget.https(), Dial: nw.dial, TLSConfig: clientTLS,
+		hc := &HostClient{Addr: c.hcTarget.host + c.hcTarget.port, IsTLS: c.hcTarget.https(), Dial: nw.dial, TLSConfig: clientTLS, RetryIfErr: retryCB,
 			ReadTimeout: 30 * time.Second, WriteTimeout: wt, MaxIdleConnDuration: time.Second}
 		hcs = append(hcs, hc)
 		defer hc.CloseIdleConnections()
@@ -597,8 +624,15 @@ func vpC21Exec(c *vpC21Case) (string, vpC21Stats) {
 			chain = append(chain, nid)
 		}
 		nw.mu.Lock()
-		nw.answers[curID] = vpC21Answer{status: 200, close: o.close}
+		nw.answers[curID] = vpC21Answer{status: 200, close: o.close, dropOnce: o.flip}
 		nw.mu.Unlock()
+		flipped := "https"
+		if o.target.https() {
+			flipped = "http"
+		}
+		if o.flip {
+			flipTo.Store(flipped)
+		}
 
 		bytesBefore := nw.bytesWritten()
 		nw.mu.Lock()
@@ -669,6 +703,7 @@ func vpC21Exec(c *vpC21Case) (string, vpC21Stats) {
 				status, _, err = hcs[0].Post(nil, url, nil)
 			}
 		}
+		flipTo.Store("")
 		if o.resend {
 			// the copy of a request is the same request: same URL, same scheme
 			req2 := AcquireRequest()
@@ -691,6 +726,25 @@ func vpC21Exec(c *vpC21Case) (string, vpC21Stats) {
 			vpNote("C21: example of a failing Client call on the fault-free fake network: %s: %v", where, err)
 		}
 
+		if o.flip {
+			// the first attempt travelled under the original scheme; once the callback has changed the scheme, the
+			// HostClient that holds the request (chosen for, or configured with, the original scheme) has to refuse
+			// it: any further transmission went out on a connection of the wrong kind
+			st.flips++
+			for k, r := range newRecs {
+				if r.id != id0 {
+					return fmt.Sprintf("%s: the fake network saw a request with an unexpected id %d", where, r.id), st
+				}
+				if k == 0 {
+					if r.tls != o.target.https() {
+						return fmt.Sprintf("%s: first attempt of a %s request was written to a connection with tls=%v", where, o.target.scheme, r.tls), st
+					}
+					continue
+				}
+				return fmt.Sprintf("%s: after the first attempt failed the retry callback changed the request's scheme to %s; the request was then written again to a connection with tls=%v dialled for %q (the HostClient holding it serves %s only and has to refuse it)", where, flipped, r.tls, r.addr, o.target.scheme), st
+			}
+			continue
+		}
 		// ---- oracle 1: every observed request travelled on the transport its URL demands ----
 		for _, r := range newRecs {
 			e, ok := table[r.id]
@@ -820,6 +874,7 @@ func TestVP_C21_SchemeTransport(t *testing.T) {
 		vpExtra("c21_requests_on_reused_conns", int64(st.reused))
 		vpExtra("c21_refusals", int64(st.refusals))
 		vpExtra("c21_copied_requests_resent", int64(st.resent))
+		vpExtra("c21_scheme_changed_before_retry", int64(st.flips))
 		vpExtra("c21_client_call_errors", int64(st.clientErrs))
 		if msg != "" {
 			t.Fatalf("C21: %s\ncase: %s", msg, c.String())
